@@ -322,11 +322,11 @@ def run_one(seed, tape, opts):
         exp = None
         if s["mode"] == "consumer_exp" and recs[d]:
             m = 1 + tape.choose(len(recs[d]), "expm")
+            if tape.choose(5, "exp0") == 0:
+                m = 0          # expected=0: "the Deferred will fire right away"
             exp = sum(len(x) for x in recs[d][:m])
-            if exp == 0:
-                exp = None     # expected=0 has its own documented b"" kick
-            else:
-                s["expected_n"] = m
+            s["expected_n"] = m
+            s["exp"] = exp
         try:
             dfr = rx.connectConsumer(col, expected=exp)
         except Exception as e:
@@ -368,7 +368,10 @@ def run_one(seed, tape, opts):
         s = st[d]
         out = []
         if s["consumer"] is not None:
-            out.extend(s["consumer"].records)
+            cr = s["consumer"].records
+            if s.get("exp") == 0 and cr[:1] == [b""]:
+                cr = cr[1:]    # the documented empty kick record
+            out.extend(cr)
             if s["expected_n"] is not None and s["expected_n"] and \
                     s["cdef_state"] != "ok" and False:
                 pass
@@ -388,6 +391,29 @@ def run_one(seed, tape, opts):
                     lim = m.k
                 if m.op == "replay" or m.op == "inject":
                     lim = m.k
+            if s.get("exp") is not None and s["cdef_state"] == "ok" and \
+                    not (m is not None and m.fired):
+                # a consumer with a byte budget takes exactly the shortest
+                # run of records that reaches it (none at all for 0), and its
+                # Deferred reports what it was given
+                exp = s["exp"]
+                tot, need = 0, 0
+                while tot < exp and need < len(recs[d]):
+                    tot += len(recs[d][need])
+                    need += 1
+                want_c = ([b""] if exp == 0 else []) + recs[d][:need]
+                have_c = s["consumer"].records
+                if have_c != want_c or s.get("cdef_value") != sum(
+                        len(x) for x in have_c):
+                    V("C06.consumer_took_wrong_records", "the receiver obtains "
+                      "exactly the records passed to send_record, each whole "
+                      "and in order (a consumer expecting E bytes takes the "
+                      "shortest run of records reaching E and nothing more)",
+                      "%s: expected=%d: consumer was given sizes %r, should "
+                      "be %r; its Deferred fired with %r" %
+                      (d, exp, [len(x) for x in have_c],
+                       [len(x) for x in want_c], s.get("cdef_value")))
+                    return
             if got != recs[d][:len(got)]:
                 V("C06.not_prefix", "the receiver obtains exactly the records "
                   "passed to send_record, each whole and in order",
